@@ -3,7 +3,7 @@ import sys
 
 from .. import engine, gen
 from ..core import Rng
-from .base import PropBase, gen_run
+from .base import PropBase, gen_run, gen_project_mode, PROJECT_DEFS
 from .history import run_history, history_candidates, describe_history
 from ..engine import Outcome
 
@@ -55,7 +55,19 @@ class C19(PropBase):
             hist.append({"opts": new})
             hist.append({"run": gen_run(rng)})
             cur = new
-        return {"tree": tree, "units": proj["units"], "langs": proj["langs"], "opts": {}, "history": hist}
+        scn = {"tree": tree, "units": proj["units"], "langs": proj["langs"], "opts": {}, "history": hist}
+        scn["project"] = gen_project_mode(rng, proj["units"], 0.2)
+        if scn["project"]:
+            # the per-file options of the compile database change too (same command line): an option change of that unit
+            h2 = []
+            for st in hist:
+                if "run" in st and h2 and rng.chance(0.4):
+                    pm = {"defs": dict(scn["project"]["defs"]), "dup": scn["project"]["dup"]}
+                    pm["defs"][rng.choice(proj["units"])] = rng.choice(PROJECT_DEFS)
+                    h2.append({"project": pm})
+                h2.append(st)
+            scn["history"] = h2
+        return scn
 
     def execute(self, scn, wd):
         return run_history(scn, wd, Outcome(), self.ID)
